@@ -1,4 +1,5 @@
 import N0Verif.Proofs.CompareCount
+import N0Verif.Proofs.CompareFaithful
 /-!
 # C09 — compare reports are faithful to the operands and leave them untouched
 
@@ -15,5 +16,56 @@ open N0 N0.Compare
 theorem C09_one_line_per_entry (cfg : Cfg) (a b : Val) (r : Res) (h : compareTop cfg a b = .ok r) :
     r.diffs = r.notEqual.length + r.selfUnique.length + r.otherUnique.length + r.diffTypes.length :=
   compareTop_balanced cfg a b r h
+
+/-- **C09 (not-equal entries are faithful).** For trees with unique dictionary keys (what Python
+guarantees), every option and flag record and both entry points: the path of every not-equal entry
+resolves in the left operand (left index of `[i]<>[j]`) and in the right operand (right index) to
+exactly the reported pair of original values … -/
+theorem C09_not_equal_faithful (cfg : Cfg) (a b : Val) (r : Res) (hw : wf a = true) (hw' : wf b = true)
+    (h : compareTop cfg a b = .ok r) :
+    ∀ e ∈ r.notEqual, getAt .left e.path a = some e.l ∧ getAt .right e.path b = some e.r :=
+  notEqual_faithful cfg a b r hw hw' h
+
+/-- … which really differ (without `transform`; with a transform the *transformed* values differ and
+the originals are shown). -/
+theorem C09_not_equal_differ (cfg : Cfg) (a b : Val) (r : Res) (htr : cfg.tr = [])
+    (h : compareTop cfg a b = .ok r) : ∀ e ∈ r.notEqual, e.l ≠ e.r :=
+  notEqual_differ cfg a b r htr h
+
+/-- **C09 (type clashes are faithful).** The left value is at the reported path, the types really differ;
+the right value is at the same path for `direct_compare`.  (Inside a keyed list a clash is reported at
+`prefix[i]` with the left index only — counter-example `C09_clash_right_index_cex`.) -/
+theorem C09_difftypes_faithful (cfg : Cfg) (a b : Val) (r : Res) (hw : wf a = true) (hw' : wf b = true)
+    (h : compareTop cfg a b = .ok r) :
+    ∀ e ∈ r.diffTypes, getAt .left e.path a = some e.l ∧ (cfg.tr = [] → tyOf e.l ≠ tyOf e.r)
+      ∧ (cfg.direct = true → getAt .right e.path b = some e.r) :=
+  diffTypes_faithful cfg a b r hw hw' h
+
+/-- the right value of a type clash inside a keyed list is *not* at the reported path: `['1']` vs
+`[None, 1]` pairs left 0 with right 1 (same `str()`), reports the clash at `[0]`, where the right
+operand holds `None`.  Needs a `str()` collision (finding C07-b). -/
+theorem C09_clash_right_index_cex :
+    compareTop (Cfg.default ⟨true, false, false, false, false, true⟩ false)
+        (.list .n0 [.str ['1']]) (.list .n0 [.none, .int 1])
+      = .ok { diffs := 2, diffTypes := [⟨[.idx 0], .str ['1'], .int 1⟩], otherUnique := [⟨[.idx 0], .none⟩] }
+    ∧ getAt .right [.idx 0] (.list .n0 [.none, .int 1]) = some .none :=
+  diffTypes_right_keyed_cex
+
+/-- **C09 (unique entries are present on their side).** -/
+theorem C09_unique_faithful (cfg : Cfg) (a b : Val) (r : Res) (hw : wf a = true) (hw' : wf b = true)
+    (h : compareTop cfg a b = .ok r) :
+    (∀ e ∈ r.selfUnique, getAt .left e.path a = some e.v) ∧
+    (∀ e ∈ r.otherUnique, getAt .right e.path b = some e.v) :=
+  unique_faithful cfg a b r hw hw' h
+
+/-! Non-vacuity: a pair whose report has a `[i]<>[j]` entry, a unique entry and a type clash. -/
+def exL : Val := .dict .n0 [(['r'], .list .n0 [.dict .n0 [(['i'], .str ['1']), (['v'], .int 1)], .dict .n0 [(['i'], .str ['2']), (['v'], .int 2)], .int 7])]
+def exR : Val := .dict .n0 [(['r'], .list .n0 [.dict .n0 [(['i'], .str ['2']), (['v'], .str ['2'])], .dict .n0 [(['i'], .str ['1']), (['v'], .int 5)]])]
+def exCfg : Cfg := { Cfg.default Flags.init false with ck := .one ['i'] }
+example : wf exL = true ∧ wf exR = true := by decide
+example : (compareTop exCfg exL exR).map (fun r => (r.diffs, r.notEqual.map (·.path), r.selfUnique.map (·.path)))
+    = .ok (3, [[.key ['r'], .idx2 0 1, .key ['v']], [.key ['r'], .idx2 1 0, .key ['v']]], [[.key ['r'], .idx 2]]) := by decide
+example : getAt .left [.key ['r'], .idx2 0 1, .key ['v']] exL = some (.int 1)
+    ∧ getAt .right [.key ['r'], .idx2 0 1, .key ['v']] exR = some (.int 5) := by decide
 
 end N0.C09
